@@ -40,7 +40,10 @@ CONSTANTS KPublished, KLoader,
           Styles,      \* how the unknown key is spelled: "fresh" (Unknown itself), "case" (a declared key of the
                        \* same node with its first letter in upper case: `Passes`) - both are outside the language
           MaxPos,      \* a rule entry is tried at positions 0..MaxPos of a list of MaxPos+1 rules
-          NullRule,    \* also write the empty rule entry as `null` (`- ~`, a dangling `-`)
+          Forms,       \* other ways to write the LAST key / entry of a walk: "null" (`key: ~`, `- ~`, a dangling `-`) and
+                       \* "empty" (`{}` without anything, `[]`, "", false, 0) - values that are falsy, not absent
+          Carriers,    \* how the unknown key reaches the file: "plain", "merge" (`<<: {k: v}`), "bom" (plain, the file starts
+                       \* with a byte order mark), "seconddoc" (at the root of a second YAML document after `---`)
           MaxSteps,    \* longest walk (mapping nodes, root included); 2 = root and the entries of its lists, which is
                        \* what the quick tier uses to try an EMPTY rule at every position among valid rules
           Slice, NSlices \* quick tier: only every NSlices-th member of a rule union is entered (NSlices = 1: all)
@@ -87,13 +90,16 @@ Legal(G, f, at, k) == LegalAt(G, f, Walk(G, f, at), k)
 Keys(G, f, at) == LET id == Walk(G, f, at) IN IF id \in {"free", "none"} THEN {} ELSE KeySet(Node(G, f, id))
 
 (* ------------------------------- documents ------------------------------- *)
-(* A document is [file, nodes]: nodes = sequence of [at |-> path, keys |-> set] *)
-(* with one element per mapping node of the YAML document (list entries share   *)
-(* the path of their list: "[]" carries no index).                              *)
+(* A document is [file, nodes]: nodes = sequence of [at |-> path, keys |-> set,  *)
+(* nulls |-> the keys whose value is null] with one element per mapping node of *)
+(* the YAML file (list entries share the path of their list: "[]" carries no    *)
+(* index; the mapping nodes of every YAML document of a multi-document file are *)
+(* all listed: a key in a second document is a key of the file).               *)
 KeysOK(G, d)      == \A i \in DOMAIN d.nodes : LET id == Walk(G, d.file, d.nodes[i].at)
                                               IN \A k \in d.nodes[i].keys : LegalAt(G, d.file, id, k)
 IsRuleEntry(d, i) == <<d.file, d.nodes[i].at>> \in RuleLists
-HasAction(G, d, i) == \E k \in d.nodes[i].keys : Legal(G, d.file, d.nodes[i].at, k)
+(* an action named with a null value (`- omit: ~`) is no action: yaml leaves the member unset *)
+HasAction(G, d, i) == \E k \in d.nodes[i].keys \ d.nodes[i].nulls : Legal(G, d.file, d.nodes[i].at, k)
 RulesOK(G, d)     == \A i \in DOMAIN d.nodes : IsRuleEntry(d, i) => HasAction(G, d, i)
 ShouldAccept(G, d) == KeysOK(G, d) /\ RulesOK(G, d)
 
@@ -109,9 +115,10 @@ VARIABLES file,    \* file kind
           leaf,    \* last key when it does not lead to a mapping node that is expanded
           inj,     \* indices of steps carrying the Unknown key
           style,   \* spelling of the injected key(s)
-          pos,     \* position of the rule entry in its list
-          form     \* "map" | "null": how a rule entry without action is written ({} or null)
-vars == <<file, steps, leaf, inj, style, pos, form>>
+          pos,     \* position of the entry in the innermost list of the walk
+          form,    \* "map" | "null" | "empty": how the last key / entry of the walk is written
+          carrier  \* how the unknown key reaches the file
+vars == <<file, steps, leaf, inj, style, pos, form, carrier>>
 
 NoLeaf == [k |-> "", why |-> "", pub |-> "", ldr |-> ""]
 Deepest == steps[Len(steps)]
@@ -120,7 +127,7 @@ L == Node(KLoader, file, Deepest.ldr)
 
 Init == /\ file \in Files
         /\ steps = << [at |-> <<>>, pub |-> KPublished[file].root, ldr |-> KLoader[file].root] >>
-        /\ leaf = NoLeaf /\ inj = {} /\ style = "fresh" /\ pos = 0 /\ form = "map"
+        /\ leaf = NoLeaf /\ inj = {} /\ style = "fresh" /\ pos = 0 /\ form = "map" /\ carrier = "plain"
 
 RECURSIVE Unlist(_, _, _, _)
 Unlist(f, p, l, at) ==
@@ -131,7 +138,8 @@ Unlist(f, p, l, at) ==
 Visits(p, l) == Cardinality({i \in DOMAIN steps : steps[i].pub = p /\ steps[i].ldr = l})
 KeyIdx(n, k) == CHOOSE i \in DOMAIN n.keys : n.keys[i].k = k
 InSlice(k)   == (NSlices > 1 /\ <<file, Deepest.at>> \in RuleLists /\ k \in KeySet(L)) => KeyIdx(L, k) % NSlices = Slice
-Growing == leaf.k = "" /\ inj = {} /\ form = "map"
+Pristine == inj = {} /\ form = "map" /\ carrier = "plain"
+Growing == leaf.k = "" /\ Pristine
 
 (* extend the walk by one key of either grammar *)
 Descend(k) ==
@@ -139,7 +147,7 @@ Descend(k) ==
   /\ k \in KeySet(P) \cup KeySet(L)
   /\ InSlice(k)
   /\ Len(steps) < MaxSteps
-  /\ UNCHANGED <<file, inj, style, form>>
+  /\ UNCHANGED <<file, inj, style, form, carrier>>
   /\ IF k \notin KeySet(L)
      THEN leaf' = [k |-> k, why |-> "only-published", pub |-> Child(P, k), ldr |-> ""] /\ UNCHANGED <<steps, pos>>
      ELSE IF k \notin KeySet(P)
@@ -151,39 +159,69 @@ Descend(k) ==
           IN IF IsMapping(pn) /\ IsMapping(ln)
              THEN IF Visits(u.pub, u.ldr) < MaxVisits
                   THEN /\ steps' = Append(steps, u) /\ leaf' = leaf
-                       /\ IF <<file, u.at>> \in RuleLists THEN pos' \in 0..MaxPos ELSE pos' = pos
+                       /\ IF u.at[Len(u.at)] = "[]" THEN pos' \in 0..MaxPos ELSE pos' = pos   \* entering a list: choose the position
                   ELSE leaf' = lf("cut") /\ UNCHANGED <<steps, pos>>
              ELSE IF pn.kind = ln.kind
              THEN leaf' = lf("scalar") /\ UNCHANGED <<steps, pos>>
              ELSE leaf' = lf("kind-drift") /\ UNCHANGED <<steps, pos>>
 
 (* one or two unknown keys at mapping nodes of a valid document *)
-InjectUnknownKey(S, u) ==
-  /\ inj = {} /\ form = "map"
+InjectUnknownKey(S, u, c) ==
+  /\ Pristine
   /\ S # {} /\ Cardinality(S) <= MaxInject
-  /\ inj' = S /\ style' = u
+  /\ c \in Carriers \ {"seconddoc"}
+  /\ c # "plain" => (u = "fresh" /\ Cardinality(S) = 1)
+  /\ c = "bom" => S = {1}
+  \* the further spellings and the merge-key carrier are tried at the deepest node of the walk only: every node of the
+  \* grammar is the deepest node of some walk, so every node kind still meets every spelling and carrier
+  /\ (u \in {"midcase", "param"} \/ c = "merge") => S = {Len(steps)}
+  /\ inj' = S /\ style' = u /\ carrier' = c
   /\ UNCHANGED <<file, steps, leaf, pos, form>>
+(* the unknown key at the root of a SECOND YAML document of the same file *)
+SecondDocument ==
+  /\ Pristine /\ "seconddoc" \in Carriers
+  /\ Len(steps) = 1 /\ leaf.k = ""       \* a property of the file, not of a node: once per file kind
+  /\ carrier' = "seconddoc"
+  /\ UNCHANGED <<file, steps, leaf, inj, style, pos, form>>
 
 (* EmptyRule: the walk stopped at a rule entry - the entry `{}` has no action.   *)
 (* It is not a separate action: the state reached by descending into the rule   *)
-(* list IS that document.  NullForm writes the same entry as `null` (`- ~`, a    *)
-(* dangling `-`): an entry of the rule list that names no action either.        *)
+(* list IS that document.  ValueForm rewrites the last key / entry of any walk:  *)
+(* "null" (`key: ~`; for a list entry `- ~` or a dangling `-`: an entry of a     *)
+(* rule list that names no action either) or "empty" (the empty value of its     *)
+(* kind).  Neither adds or removes a key, so every such document loads unless    *)
+(* it leaves a rule entry without action (`- {}`, `- ~`, `- omit: ~`).           *)
 AtEmptyRule == leaf.k = "" /\ <<file, Deepest.at>> \in RuleLists
-NullForm == /\ NullRule /\ Growing /\ AtEmptyRule
-            /\ form' = "null" /\ UNCHANGED <<file, steps, leaf, inj, style, pos>>
+HasLast == Len(steps) > 1 \/ leaf.k # ""
+ValueForm(f) ==
+  /\ Pristine /\ HasLast /\ f \in Forms
+  /\ ~(f = "empty" /\ AtEmptyRule)          \* `{}` at a rule entry is the state itself
+  /\ leaf.why \notin {"only-published", "only-loader"}
+  /\ form' = f
+  /\ UNCHANGED <<file, steps, leaf, inj, style, pos, carrier>>
 
 Next == \/ \E k \in KeySet(P) \cup KeySet(L) : Descend(k)
-        \/ \E S \in SUBSET (DOMAIN steps), u \in Styles : InjectUnknownKey(S, u)
-        \/ NullForm
+        \/ \E S \in SUBSET (DOMAIN steps), u \in Styles, c \in Carriers : InjectUnknownKey(S, u, c)
+        \/ SecondDocument
+        \/ \E f \in Forms : ValueForm(f)
 Spec == Init /\ [][Next]_vars
 
 (* the document a state stands for, as the generator knows it (the renderer     *)
 (* adds companion keys that well-formedness of VALUES needs - a selector, a     *)
 (* package name - and the trace specification re-evaluates the full tree)       *)
-StepKeys(i) == (IF i < Len(steps) THEN {steps[i + 1].at[Len(steps[i].at) + 1]}
-                ELSE IF leaf.k # "" THEN {leaf.k} ELSE {})
+ViaKey(i) == steps[i + 1].at[Len(steps[i].at) + 1]
+StepKeys(i) == (IF i < Len(steps) THEN {ViaKey(i)} ELSE IF leaf.k # "" THEN {leaf.k} ELSE {})
                \cup (IF i \in inj THEN {Unknown} ELSE {})
-Doc == [file |-> file, nodes |-> [i \in DOMAIN steps |-> [at |-> steps[i].at, keys |-> StepKeys(i)]]]
+LastIsEntry == Deepest.at # <<>> /\ Deepest.at[Len(Deepest.at)] = "[]"
+(* a null written where a mapping node (not an entry of a rule list) would be: the node is not there *)
+Dropped == form = "null" /\ leaf.k = "" /\ Len(steps) > 1 /\ <<file, Deepest.at>> \notin RuleLists
+StepNulls(i) == IF form # "null" THEN {}
+                ELSE IF leaf.k # "" THEN (IF i = Len(steps) THEN {leaf.k} ELSE {})
+                ELSE IF i = Len(steps) - 1 /\ ~LastIsEntry THEN {ViaKey(i)} ELSE {}
+WalkNodes == [i \in 1..(IF Dropped THEN Len(steps) - 1 ELSE Len(steps)) |->
+                [at |-> steps[i].at, keys |-> StepKeys(i), nulls |-> StepNulls(i)]]
+Doc == [file |-> file,
+        nodes |-> IF carrier = "seconddoc" THEN Append(WalkNodes, [at |-> <<>>, keys |-> {Unknown}, nulls |-> {}]) ELSE WalkNodes]
 
 (* ------------------------------ SameLanguage ----------------------------- *)
 (* evaluated at every node pair the walks reach: complete for the (infinite)    *)
@@ -209,11 +247,12 @@ UnknownIsUnknown ==
 InjectionIsRejected ==
   (\E i \in inj : LET n == Node(KLoader, file, steps[i].ldr) IN n.kind = "map" /\ ~n.open) => ~ShouldAccept(KLoader, Doc)
 EmptyRuleIsRejected == AtEmptyRule => ~ShouldAccept(KLoader, Doc)
+SecondDocumentIsRejected == carrier = "seconddoc" => ~ShouldAccept(KLoader, Doc)
 ValidIsAccepted ==
-  (inj = {} /\ ~AtEmptyRule /\ leaf.why \notin {"only-published", "only-loader"})
+  (Pristine /\ ~AtEmptyRule /\ leaf.why \notin {"only-published", "only-loader"})
      => (ShouldAccept(KLoader, Doc) /\ KeysOK(KPublished, Doc))
 
-Case == [file |-> file, steps |-> steps, leaf |-> leaf, inj |-> inj, style |-> style, pos |-> pos, npos |-> MaxPos + 1, form |-> form,
+Case == [file |-> file, steps |-> steps, leaf |-> leaf, inj |-> inj, style |-> style, pos |-> pos, npos |-> MaxPos + 1, form |-> form, carrier |-> carrier,
          expl |-> ShouldAccept(KLoader, Doc), expp |-> KeysOK(KPublished, Doc),
          emptyrule |-> AtEmptyRule]
 Emit == PrintT(<<"CASE", ToJson(Case)>>)
